@@ -160,15 +160,13 @@ pub0_pipe_fini(void *arg)
 static int
 pub0_pipe_init(void *arg, nni_pipe *pipe, void *s)
 {
-	pub0_pipe *p    = arg;
-	pub0_sock *sock = s;
-	size_t     len;
+	pub0_pipe *p = arg;
 
-	nni_mtx_lock(&sock->mtx);
-	len = sock->sendbuf;
-	nni_mtx_unlock(&sock->mtx);
-
-	nni_lmq_init(&p->sendq, len);
+	// The queue gets the socket's configured depth in pub0_pipe_start.
+	// We must not take the socket lock here: transports create pipes
+	// while holding their own locks, which pub0_sock_send acquires (via
+	// nni_pipe_send) with the socket lock held.
+	nni_lmq_init(&p->sendq, 0);
 	nni_aio_init(&p->aio_send, pub0_pipe_send_cb, p);
 	nni_aio_init(&p->aio_recv, pub0_pipe_recv_cb, p);
 
@@ -191,6 +189,10 @@ pub0_pipe_start(void *arg)
 		return (NNG_EPROTO);
 	}
 	nni_mtx_lock(&sock->mtx);
+	if (nni_lmq_resize(&p->sendq, sock->sendbuf) != 0) {
+		nni_mtx_unlock(&sock->mtx);
+		return (NNG_ENOMEM);
+	}
 	nni_list_append(&sock->pipes, p);
 	nni_mtx_unlock(&sock->mtx);
 
